@@ -45,6 +45,7 @@ Print Assumptions C07_reconnects.
 (* a refresh request made while a round is in flight is kept (the trigger channel of upstream.go holds one entry) *)
 Theorem C07_trigger_kept : 1 <= slots_refresh_ch_cap.
 Proof. exact trigger_kept. Qed.
+Print Assumptions C07_trigger_kept.
 
 (* routing: the first redirection triggers a refresh; once some configured host is reachable the table equals the
    layout, and with an up-to-date table no request is redirected *)
